@@ -108,7 +108,7 @@ def handle (op : String) (j : Json) : Except String Json := do
     let sz ← getIntList j "sizes"
     let out := (st.zip (sp.zip sz)).map (fun (s, e, z) => let r := clipK s e z; [r.1, r.2])
     pure (reply (Json.mkObj [("iv", intListList out)]))
-  | "geo_clip" =>
+  | "geo_clip" | "streamed_clip" =>
     let st ← getIntList j "start"
     let sp ← getIntList j "stop"
     let ch ← getNatList j "chrom"
@@ -123,7 +123,7 @@ def handle (op : String) (j : Json) : Except String Json := do
     let len ← getInt j "len"
     let out := (st.zip (sp.zip (sz.zip fw))).map (fun (s, e, z, f) => let r := extendK (f == 1) s e len z; [r.1, r.2])
     pure (reply (Json.mkObj [("iv", intListList out)]))
-  | "geo_extend" =>
+  | "geo_extend" | "streamed_extend" =>
     let st ← getIntList j "start"
     let sp ← getIntList j "stop"
     let ch ← getNatList j "chrom"
@@ -161,6 +161,38 @@ def handle (op : String) (j : Json) : Except String Json := do
       Json.arr ((sets.zipIdx.map (fun (a, i) => Json.arr ((sets.zipIdx.map (fun (b, k) =>
         if i == k then nat 0 else bitsOf (cell f a b))).toArray))).toArray)
     pure (reply (Json.mkObj [("bits", mat contingency)]) (some (Json.mkObj [("bits", mat specContingency)])))
+  | "global_intersect" =>
+    let sizes ← getNatList j "sizes"
+    let toC := fun (ll : List (List Nat)) => ll.mapM (fun l => match l with
+      | [c, a, b] => (pure (c, a, b) : Except String CIv)
+      | _ => throw "row must be [chrom, start, stop]")
+    let A ← toC (← getNatListList j "a")
+    let B ← toC (← getNatListList j "b")
+    let on := fun (L : List CIv) (c : Nat) => (L.filter (fun r => r.1 == c)).map (·.2)
+    let dense := sizes.zipIdx.map (fun (sz, c) =>
+      (List.range sz).map (fun p => if 0 < cov (on A c) p && 0 < cov (on B c) p then 1 else 0))
+    pure (reply (Json.mkObj [("recs", natListList ((globalIntersect A B).map (fun r => [r.1, r.2.1, r.2.2])))])
+      (some (Json.mkObj [("dense", natListList dense)])))
+  | "pileup_bedgraph" =>
+    let I ← getIvs j "iv"
+    let lo := ((I.map (·.1)).min?).getD 0
+    let hi := ((I.map (·.2)).max?).getD 0
+    let recs := (pileupBg I).map (fun r => [(r.1 : Int), (r.2.1 : Int), r.2.2])
+    -- `sliding_window_view` of an empty position array raises (known finding pileup_bedgraph:empty-input-raises-ValueError)
+    let m := if I.isEmpty then Json.mkObj [("err", str "other:ValueError")] else Json.mkObj [("recs", intListList recs)]
+    pure (reply m
+      (some (Json.mkObj [("lo", nat lo), ("hi", nat hi), ("dense", natList ((List.range' lo (hi - lo)).map (cov I)))])))
+  | "value_hist" =>
+    let bg ← (← getNatListList j "bg").mapM (fun l => match l with
+      | [a, b, v] => (pure (a, b, v) : Except String (Nat × Nat × Nat))
+      | _ => throw "record must be [start, stop, value]")
+    pure (reply (Json.mkObj [("hist", natList (valueHist bg))]))
+  | "geo_sort" =>
+    let recs ← getNatListList j "recs"
+    let rs : List Rec ← recs.mapM (fun l => match l with
+      | [k, s, e] => pure (k, s, e)
+      | _ => throw "record must be [key, start, stop]")
+    pure (reply (Json.mkObj [("recs", natListList ((geoSort rs).map (fun r => [r.1, r.2.1, r.2.2])))]))
   | _ => throw s!"C08: unknown op {op}"
 
 end Drv.C08
